@@ -173,7 +173,11 @@ def proj_pair(op, r):
 
 
 def proj_c10(op, r):
-    return strip_kv(r, "pp")        # the parts round trip of each state belongs to C17
+    return strip_kv(strip_kv(r, "pp"), "sd")        # the parts round trip of each state belongs to C17, its serde form to C19
+
+
+def proj_c20(op, r):
+    return strip_kv(r, "sd") if op == "hist" else r   # `sd` exists only with the serde feature (an extra API)
 
 
 def proj_c17(op, r):
@@ -422,7 +426,7 @@ def orc_c10(ctx, op, req, impl, model, spec):
         if get_kv(st, "rp") == "0":
             return "after step %d the value does not re-parse to itself" % (i + 1)
         prev = state
-    if spec is not None and strip_kv(impl, "pp") != strip_kv(spec, "pp"):
+    if spec is not None and proj_c10(op, impl) != proj_c10(op, spec):
         return "differs from the set/map reference model"
     return None
 
@@ -526,6 +530,8 @@ def orc_c13(ctx, op, req, impl, model, spec):
             return "to_string differs between LanguageIdentifier and Locale"
         if get_kv(li, "back") != "1" or get_kv(li, "ee") != "1":
             return "LanguageIdentifier -> Locale -> LanguageIdentifier is not the identity"
+        if get_kv(li, "can") == "0":
+            return "canonicalize of the two crates disagree on an input LanguageIdentifier accepts"
     if loc.startswith("ok"):
         if get_kv(loc, "ideq") != "1" or get_kv(loc, "aref") != "1":
             return "Locale -> LanguageIdentifier does not return the id"
@@ -743,6 +749,8 @@ def proj_c19(op, r):
     # checks from_str against from_value on the implementation.
     if op == "serfrom":
         return r.split(" | ")[0]
+    if op == "hist":
+        return " # ".join((get_kv(p, "sd") or "-") for p in r.split(" # "))
     return r
 
 
@@ -755,6 +763,12 @@ def judge_c19_pre(impl, model):
 def orc_c19(ctx, op, req, impl, model, spec):
     if impl in ("notutf8", "panic", "na"):
         return "panic" if impl == "panic" else None
+    if op == "hist":
+        for i, st in enumerate(impl.split(" # ")[1:]):
+            if get_kv(st, "sd") == "0":
+                return ("after step %d the identifier %s does not serialise to its quoted canonical string, or does not deserialise to an "
+                        "equal value" % (i + 1, get_kv(st, "str")))
+        return None
     if op == "serto":
         if not impl.startswith("ok"):
             return None
@@ -797,6 +811,7 @@ def orc_c20(ctx, op, req, impl, model, spec):
     key = hash(req)
     if ctx.get("requery"):
         return None
+    impl = proj_c20(op, impl)
     if ctx.get("first_config"):
         base[key] = hash(impl)
         return None
@@ -873,10 +888,10 @@ PROPS = {
     "C16": Prop("C16", [("macros", None)], {"mac"}, proj_c16, orc_c16, design_ref="4/C16"),
     "C18": Prop("C18", [("layoutnames", None), ("tablemisc", None)] + S(["triples"], "max,dir"), {"max", "dir", "cldrversion"}, proj_full, orc_c18,
                 design_ref="4/C18"),
-    "C19": Prop("C19", [("serde", None)], {"serto", "serfrom"}, proj_c19, orc_c19, design_ref="4/C19"),
+    "C19": Prop("C19", [("serde", None), ("hist", None)], {"serto", "serfrom", "hist"}, proj_c19, orc_c19, design_ref="4/C19"),
     "C20": Prop("C20", S(["tokens"], "loc") + S(["wf", "near"], "li,loc,lican,loccan,conv,liparts,locparts") + S(["subtag"], "lang,script,region,variant")
                 + [("hist", None), ("match", None), ("rel", None), ("parts", None), ("pairs", None), ("layoutnames", None)],
-                None, proj_full, orc_c20, design_ref="4/C20",
+                None, proj_c20, orc_c20, design_ref="4/C20",
                 gen_env={"GEN_LIKELY": "0"},     # histories without maximize/minimize: those calls exist only with the feature
                 configs=[("none", ()), ("likely", ("likely",)), ("all", ALL_FEATURES)],
                 thorough_configs=[("none", ()), ("likely", ("likely",)), ("serde", ("serde",)), ("macros", ("macros",)),
@@ -1074,13 +1089,24 @@ def check(pid, tier, seed):
             configs = cfg.thorough_configs
             log("  cfg(feature) extent differs from the modelled one: comparing all %d feature builds" % len(configs))
     harnesses = {}
+    macros_broken = False
     with R.Lock():
         tabh, out = R.build_harness(ALL_FEATURES)      # the translator needs the tables (feature likelysubtags)
+        if not tabh:
+            # a harness that uses the compile-time macros cannot be built when a macro no longer accepts what the harness
+            # writes; that is C16's business (its generated program reports compile errors per invocation).  Every other
+            # request is answered by a harness built without the macros feature.
+            tabh, out2 = R.build_harness(tuple(f for f in ALL_FEATURES if f != "macros"))
+            macros_broken = bool(tabh)
+            if macros_broken:
+                log("  the harness does not build with the macros feature; continuing without it:\n" + "\n".join(out.splitlines()[-12:]))
         if not tabh:
             print(out[-6000:])
             print("BUILD-FAILED: the harness does not compile against %s" % R.REPO)
             return 2
         for label, feats in configs:
+            if macros_broken:
+                feats = tuple(f for f in feats if f != "macros")
             h, out = R.build_harness(feats)
             if not h:
                 print(out[-6000:])
